@@ -40,8 +40,23 @@ def colarg(frame, names, pos):
     return names[pos - 1] if frame else pos - 1
 
 
-def call(rng, kind, n, ncols, frame, window=None, seed=0):
-    from menelaus import injection as I
+class _Pool:
+    """injector objects of a session: the SAME object serves successive calls (container types may alternate)"""
+
+    def __init__(self, I, reuse):
+        self.I, self.reuse, self.objs = I, reuse, {}
+
+    def __getattr__(self, name):
+        cls = getattr(self.__dict__["I"], name)
+        if not self.__dict__["reuse"]:
+            return cls
+        objs = self.__dict__["objs"]
+        return lambda: objs.setdefault(name, cls())
+
+
+def call(rng, kind, n, ncols, frame, window=None, seed=0, pool=None):
+    from menelaus import injection as I0
+    I = pool if pool is not None else _Pool(I0, False)
     data, names = make_data(rng, n, ncols, frame)
     before = mat(data)
     f, t = window if window is not None else sorted((rng.randint(0, n), rng.randint(0, n)))
@@ -98,6 +113,21 @@ def call(rng, kind, n, ncols, frame, window=None, seed=0):
         raise KeyError(kind)
     e.update({"from": f, "to": t})
     return e
+
+
+def session(rng, kind, ncalls, seed):
+    """several calls on ONE injector object, alternating ndarray / DataFrame inputs of different shapes"""
+    from menelaus import injection as I0
+    pool = _Pool(I0, True)
+    ev, spec = [], []
+    frame = rng.random() < 0.5
+    for c in range(ncalls):
+        n, nc = rng.randint(4, 12), rng.randint(2, 4)
+        st = rng.getstate()
+        ev.append(call(rng, kind, n, nc, frame, None, seed + c, pool=pool))
+        spec.append([n, nc, frame, seed + c])
+        frame = not frame if rng.random() < 0.8 else frame
+    return {"cfg": {}, "ev": ev, "mode": "session", "kind": kind, "seed": seed, "ncalls": ncalls}
 
 
 def freq_trace(rng, frame, reps, seed):
